@@ -198,3 +198,21 @@ CHECKS["C04"]["manifest_text"] = ("Lean theorems for every arena with well-forme
 CHECKS["C04"]["manifest_note"] = "Cleanup closures are arbitrary user code: the subtree theorem is proved for cleanups consisting of reads/track (InertBody); cleanups with side effects are covered by the correspondence and the oracle only. Preservation of OwnershipOk/NoDangling/EdgesSym by the whole interpreter (so that the theorems apply to every reachable state) is not yet a Lean theorem."
 CHECKS["C04"]["status"] = "structural theorems proved for all well-formed arenas (inert cleanups); lift to every reachable state of every program: not proved, covered by correspondence"
 CHECKS["C04"]["partial"] = [{"theorem": "exec_preserves_WF (planned)", "missing": "OwnershipOk, NoDangling and EdgesSym hold in every state reachable by DSL programs"}]
+
+LM = "SycVerif.ListMap."
+CHECKS["C07"] = {
+    "manifest_text": "Lean theorems over a phase-by-phase model of the update closures of map_keyed and map_indexed (clear and create fast paths, prefix/suffix skip by value, new_indices map with its next chain, move-or-dispose, fill, truncate; map_fn abstracted to 'return a fresh call id'): for ALL lists — map_indexed: one output per input, a position is recomputed iff its value changed or appeared, fresh ids ascending, disposed scopes = exactly the replaced and truncated positions, each once (mapIndexed_spec + corollaries); map_keyed with unique keys: the result of the call made when a key entered is kept wherever the item moves and whatever its payload becomes, exactly one call per entering key in ascending position, disposed scopes = exactly the keys that left, each once, never a retained one, no panic (mapKeyed_spec), lifted to every history of updates (mapKeyed_history: the stored id is the id of the call of the update in which the key most recently entered). Model tied to /repo by running the real map_keyed/map_indexed with an instrumented map_fn (call ids, on_cleanup log) on exhaustive and random chains and comparing outputs and event order.",
+    "manifest_note": "Trusted: HashMap modelled as an association list; create_child_scope/dispose abstracted to create/dispose events named by call id. With DUPLICATE keys (outside the property) a debug_assert of map_keyed can fail in debug builds; it is modelled and reported in DESIGN.md, not a C07 violation.",
+    "lean_modules": ["SycVerif.Props.C07"],
+    "theorems": [LM + n for n in ["mapIndexed_spec", "mapIndexed_create_ids_ascending", "mapIndexed_reused_no_event", "mapIndexed_mem_disposes",
+                                  "mapIndexed_disposes_nodup", "mapIndexed_history", "mapKeyed_spec", "mapKeyed_create_ids_ascending",
+                                  "mapKeyed_mem_disposes", "mapKeyed_disposes_nodup", "mapKeyed_kept_no_event", "mapKeyed_history"]],
+    "engines": [{"harness": "native", "engine": "listmap"}],
+    "status": "full statement proved over the model (all lists, unique keys for map_keyed, all histories)",
+    "partial": [],
+    "rule": "exhaustive: all ordered pairs of duplicate-free key lists over 4 (quick) / 5 (thorough) keys as old->new chains for keyed and indexed, plus a payload-change variant; all chains of 3 updates over 3 (quick) / 4 (thorough) keys; 20k (quick) / 200k (thorough) random chains of 4-10 updates with empty lists, payload changes and (every 5th, outside the property's premise) duplicate keys. distinct = distinct request line; non-trivial = two consecutive non-empty different lists",
+    "exhaustive_blocks_quick": "all pairs of duplicate-free lists over 4 keys (65x65) x {keyed, indexed, keyed+payload change}; all 3-chains over 3 keys",
+    "exhaustive_blocks_thorough": "all pairs over 5 keys (326x326); all 3-chains over 4 keys",
+    "trusted": ["std HashMap as association list", "scopes/cleanups abstracted to create/dispose events; the reactive wrapping create_memo(on(list, || scope.run_in(update))) is exercised by the harness but not part of this model (see C01/C04)"],
+    "assumptions": ["unique keys in the old and the new list (the property's premise) for the map_keyed claims"],
+}
